@@ -36,12 +36,15 @@ def gen_schedule(rng, dhw: bool, max_sp: int = 6):
     days = []
     for d in range(7):
         n = rng.choice([1, 1, 2, 3, max_sp, rng.randint(1, max_sp)])
-        times = sorted(rng.sample(range(288), n))
+        times = set(rng.sample(range(288), n))
+        if rng.random() < 0.4:        # the ends of the day: 00:00 (the first switchpoint of Monday packs to the lowest record there is) and 23:55
+            times = set(list(times)[:max(0, n - 2)]) | {0, 287} if n >= 2 else {rng.choice([0, 287])}
+        times = sorted(times)
         sps = []
         for t in times:
             tod = f"{(t * 5) // 60:02d}:{(t * 5) % 60:02d}"
             if dhw:
-                sps.append({"time_of_day": tod, "enabled": rng.random() < 0.5})
+                sps.append({"time_of_day": tod, "enabled": (rng.random() < 0.5) if t else (rng.random() < 0.25)})
             else:
                 k = rng.choice([500, 3500, 869 + 1, 1983, 3329, 1999, rng.randint(500, 3500)])
                 sps.append({"time_of_day": tod, "heat_setpoint": k / 100})
